@@ -23,6 +23,7 @@ EXPLANATION = (
     "fresh local object per evaluation, import-time patches of sqlparse run at import only; R12.5 the provider look-up keeps no memory and never mutates in place what the source or the session store returned (= R13.5); R12.4 the evaluated flag is set only as the "
     "last step of a successful evaluation. Does not decide: interference through a provider object the user shares between threads, "
     "sqlfluff/sqlparse internal caches."
+    " R12.2 also judges memoising decorators (acceptable only on functions that compute from their arguments alone). R12.6 (= R15.1 / R15.2) scoped overrides live in the calling thread's own entry."
 )
 RULE_TEXT = (
     "one obligation per registration site, exit path, store, and per mutation site found in the functions reachable from the "
